@@ -171,14 +171,21 @@ class OrcaPipeline:
             self.run.notes.append("unconfirmed %s on %s" % (k, json.dumps(m.get("cmd"))))
             self.drift += 1
             return
-        if k not in self.kinds:
+        if k == "RefEq" and "RefEq" not in self.kinds and "ReplyOK" in self.kinds and src == "walk" and \
+                any(not x.get("after_evicting_l1") for x in (m.get("probe") or [])):
+            # the command was acknowledged as the model says, but a read through the client interface right
+            # afterwards (L1 untouched) does not return what the reference map holds: a reply-level difference
+            k = "ReadBack"
+        elif k not in self.kinds:
             return
         c = m.get("cmd") or {}
         what = "%s: %s %s on port %s of %s (%s): want %s got %s %s" % (
             k, c.get("op"), json.dumps({x: c[x] for x in c if x in ("k", "keys", "v", "f", "t", "quiet", "noopend")}),
             m.get("port"), m.get("cfg"), m.get("proto"), json.dumps(m.get("want")), json.dumps(m.get("got")),
             m.get("detail", ""))
-        self.run.candidate(k, what, sig=sig_of(m), detail=m, replay={"driver": "orca-walk", "mismatch": m})
+        sg = sig_of(m)
+        sg["mkind"] = k
+        self.run.candidate(k, what, sig=sg, detail=m, replay={"driver": "orca-walk", "mismatch": m})
 
     # -- 3. traces of the code into TLC ------------------------------------------------
     def rand(self, shape, proto, n, length, sizes="small", keylen=0):
